@@ -202,7 +202,13 @@ static std::string step(const Toks& t)
 		if (lo < MS_MIN || lo + 1 > MS_MAX) return "range";
 		double tt = us / 1000000.0;
 		ll rf = llround(Date(Date(tt).toUTCString(Date::FULL)).time() * 1000.0);
-		if ((rf != lo && rf != lo + 1) || llabs(rf * 1000 - us) > 560) return "BAD full-roundtrip " + str(rf);
+		// what a double can resolve at this instant, in microseconds: outside that distance from the tie the nearest
+		// millisecond is determinate (roundMs), inside it either neighbour is a correct rounding
+		double ulp = nextafter(fabs(tt), INFINITY) - fabs(tt);
+		double tol = fmax(1.0, 4 * ulp * 1e6);
+		ll off = floormod(us, 1000) - 500;
+		if ((double)llabs(off) > tol) { if (rf != roundMs(us)) return "BAD full-roundtrip " + str(rf) + " expected " + str(roundMs(us)); }
+		else if (rf != lo && rf != lo + 1) return "BAD full-roundtrip " + str(rf);
 		std::string why;
 		instLineCore(tt, rf, why);
 		return why.empty() ? "ok" : "BAD" + why;
@@ -218,7 +224,8 @@ static std::string step(const Toks& t)
 		if (m1 <= MS_MIN || m1 >= MS_MAX) return "range";
 		String f = Date(t1).toUTCString(Date::FULL);
 		double t2 = Date(f).time();
-		if (!(fabs(t2 - t1) <= 0.00056)) return "BAD " + raw(f) + " " + tstr(t2) + " for " + tstr(t1);
+		double ulp1 = nextafter(fabs(t1), INFINITY) - fabs(t1);
+		if (!(fabs(t2 - t1) <= 0.0005 + fmax(1e-6, 4 * ulp1))) return "BAD " + raw(f) + " " + tstr(t2) + " for " + tstr(t1);
 		return "ok";
 	}
 	if (op == "splitu" && t.size() == 2 && isInt(t[1])) {
